@@ -351,6 +351,9 @@ theorem C10_gate_gen : Gen.handshakeGateType = "diam.HandlerFunc" ∧
     -- nobody has to read (HandshakeNotify, error reports, the watchdog's ack) never block a reader
     Gen.channelSends = [("diam:ServeMux.Error", "mux.e", "select-default"),
       ("diam/sm:handleCEA", "errc", "blocking"), ("diam/sm:handleCEA", "sm.hsNotifyc", "select-default"),
-      ("diam/sm:handleCER", "sm.hsNotifyc", "select-default"), ("diam/sm:handleDWA", "dwac", "select-default")] := by decide
+      ("diam/sm:handleCER", "sm.hsNotifyc", "select-default"), ("diam/sm:handleDWA", "dwac", "select-default")] ∧
+    -- a dialled connection is not a listener: the client takes over CER (by index and by name)
+    -- before it sends its own, so that a CER of the peer's cannot open the gate
+    Gen.handshakeRegistrations = ["HandleIdx:baseCERIdx", "HandleFunc:\"CER\"", "Handle:\"CEA\"", "Handle:\"DWA\""] := by decide
 
 end DV.Props.C10
